@@ -82,6 +82,66 @@ def prep_hook_events(tlines, lcp):
     return res, len(exs)
 
 
+def classifier_level(ctx, rng, quick):
+    """The splitter-tree classifiers on their own: ClassifyI model-checked, then the real templates called directly (harness/drv_classify.cpp) and judged by TLC."""
+    CI = "CONSTANTS TreeBits = %d\n Keys = {2, 4, 6, 8}\n MaxSample = %d\n Variant = \"%s\"\nSPECIFICATION Spec\nINVARIANTS SplittersInOrder GetSplitterIsInOrder TreeCalculationsInverse ClassifyRight\nCHECK_DEADLOCK FALSE\n"
+    for (tb, ms) in ((1, 5), (2, 6), (3, 9 if quick else 11)):
+        tlc_mc(ctx, PD, "ClassifyI", "mc_classify_%d.cfg" % tb, workers=8, coverage=False, timeout=3000, cfg_text=CI % (tb, ms, "fixed"))
+    for mut in ("equal_get_splitter_unshifted", "scalar_strict_less"):
+        r = tlc_mc(ctx, PD, "ClassifyI", "mc_classify_neg.cfg", workers=4, coverage=False, timeout=3000, expect_ok=False, cfg_text=CI % (2, 5, mut))
+        if r["ok"] or " is violated" not in r["out"]:
+            raise InternalError("negative self-test: ClassifyI variant %s is not refuted" % mut)
+        ctx.cov["negative_self_tests"] = ctx.cov.get("negative_self_tests", 0) + 1
+
+    def sl(b):
+        return "%d %s" % (len(b), " ".join(map(str, b)))
+    lines = []
+    for i in range(250 if quick else 4000):
+        tb = 1 + i % 5
+        ns = 2 ** tb - 1
+        depth = rng.choice((0, 0, 2, 7))
+        pre = [rng.choice((120, 121)) for _ in range(depth)]
+        alpha = rng.choice(((97, 98), (1, 97, 255), (97, 98, 99, 100), (1, 2, 254, 255)))
+        maxlen = rng.choice((1, 2, 3, 9))
+
+        def mk():
+            return pre + [rng.choice(alpha) for _ in range(rng.randint(0, maxlen))]
+        nsamp = rng.choice((1, 2, ns, ns + 1, 2 * ns, 2 * ns + 3, 5 * ns))
+        samples = [mk() for _ in range(nsamp)]
+        if rng.random() < 0.3:                      # long runs of equal samples: duplicate splitters, empty ranges in the builder
+            samples = [rng.choice(samples[:3]) for _ in range(nsamp)]
+        keys = list(samples[: 12]) + [mk() for _ in range(rng.randint(0, 9))] + [pre, pre + [255] * 9]
+        keys += [k + [1] for k in samples[:4]] + [k[:-1] for k in samples[:4] if len(k) > depth]
+        keys = keys[: rng.choice((len(keys), max(1, len(keys) - 1), max(1, len(keys) - 2), max(1, len(keys) - 3)))]      # every residue mod 4 (unrolled groups + scalar tail)
+        lines.append("%d %d %d %s %d %s" % (tb, depth, len(samples), " ".join(sl(x) for x in samples), len(keys), " ".join(sl(x) for x in keys)))
+    scr = ctx.path("classify_scripts.txt")
+    open(scr, "w").write("\n".join(lines) + "\n")
+    exe = build(ctx, "drv_classify", [os.path.join(HARNESS, "drv_classify.cpp"), os.path.join(REPO, "tlx/die/core.cpp"), os.path.join(REPO, "tlx/logger/core.cpp")])
+    tr = ctx.path("classify.ndjson")
+    ok, so, se = run_driver_checked(ctx, exe, [scr, tr], what="drv_classify", replay_src=scr)
+    exe_a = build(ctx, "drv_classify_asan", [os.path.join(HARNESS, "drv_classify.cpp"), os.path.join(REPO, "tlx/die/core.cpp"), os.path.join(REPO, "tlx/logger/core.cpp")],
+                  flags=["-fsanitize=address,undefined", "-fno-sanitize=alignment", "-fno-sanitize-recover=undefined"])
+    run_driver_checked(ctx, exe_a, [scr, ctx.path("classify_asan.ndjson")], what="drv_classify(asan)", replay_src=scr, timeout=3000)
+    if not (os.path.exists(tr) and os.path.getsize(tr)):
+        return
+    evs = [x for x in read_text(tr).split("\n") if '"e":"classify"' in x]
+    if len(evs) != 3 * len(lines) and ok:
+        raise InternalError("drv_classify recorded %d events for %d script lines" % (len(evs), len(lines)))
+    ctx.cov["classifier_calls_validated"] = len(evs)
+    per = ctx.path("classify_chunks.ndjson")
+    with open(per, "w") as f:
+        for i in range(0, len(evs), 30):
+            f.write('{"e":"reset"}\n' + "\n".join(evs[i:i + 30]) + "\n")
+
+    def classify(ex, at):
+        e = json.loads(ex[min(at, len(ex) - 1)])
+        return ("ps5/classifier/%s/tb%s" % (e.get("cls"), e.get("tb")),
+                "splitter tree classifier '%s' (treebits %s, %d samples): splitters not in order / not from the sample, a key in a bucket its value does not belong to, or a wrong splitter LCP entry"
+                % (e.get("cls"), e.get("tb"), len(e.get("samples", []))))
+    # implementation level first (the splitters the transcribed builder picks); what only that level rejects is DRIFT, the verdict is Trace_Classify
+    validate_traces(ctx, PD, "Trace_Classify", "Trace_ClassifyI.cfg", per, classify, shards=NCPU, max_rejects=8, timeout=3000, property_level=(PD, "Trace_Classify", "Trace_Classify.cfg"))
+
+
 def run(ctx):
     quick = ctx.tier == "quick"
     rng = random.Random(ctx.seed)
@@ -90,6 +150,8 @@ def run(ctx):
                        "(library front ends; tiny thresholds so that big steps, sequential sample sort, MKQS, insertion sort and work sharing all occur on small inputs) x LCP x "
                        "threads x {random, PCT, non-preemptive, run-first} schedules; collections of exactly smallsort_threshold strings (4, 32, 64, 128, 256, 4096) force the matching "
                        "parameter set (one sequential-sample-sort job next to idle workers; the 4096-string ones run 16 more PCT schedules); non-trivial = at least 2 strings")
+    # 0. the splitter-tree classifiers on their own
+    classifier_level(ctx, rng, quick)
     # 1. the job graph: every interleaving of the step life-cycle for small constants
     for (w, st, lcp) in ([(2, 3, "FALSE"), (2, 3, "TRUE"), (2, 4, "FALSE")] if quick else [(2, 4, "FALSE"), (2, 4, "TRUE"), (3, 4, "FALSE"), (2, 5, "FALSE"), (3, 5, "TRUE")]):
         tlc_mc(ctx, PD, "PS5I", "mc_ps5_run.cfg", workers=NCPU, coverage=(st == 3), timeout=3000, cfg_text=MC_CFG % (w, st, lcp, "TRUE", "FALSE", INVS),
